@@ -17,8 +17,12 @@ def run(cmd, cwd, timeout=3600):
     return p.returncode, p.stdout + p.stderr
 
 def main():
-    args = [a for a in sys.argv[1:] if a != "--thorough"]
+    args = [a for a in sys.argv[1:] if a not in ("--thorough", "--race-demo") and not a.startswith("--run=")]
+    only = next((a[6:] for a in sys.argv[1:] if a.startswith("--run=")), "")  # run only this test (a demonstration that must be the first use in its process)
     thorough = "--thorough" in sys.argv
+    race = "-race " if "--race-demo" in sys.argv else ""
+    if only:
+        race += "-run '%s' " % only  # demonstrations of data races need the race detector
     sid, prop, src, needs = args[:4]
     checks = args[4:]
     assert run("git status --short", "/repo")[1].strip() == "", "/repo is not clean"
@@ -26,11 +30,11 @@ def main():
     m = re.match(r"//\s*dir:\s*(\S+)", demo)
     ddir = m.group(1) if m else "."
     dpath = os.path.join("/repo", ddir, "zz_seeded_demo_test.go")
-    out = {"id": sid, "property": prop, "needs_to_manifest": needs, "ran": []}
+    out = {"id": sid, "property": prop, "needs_to_manifest": needs, "demo_run_with_race_detector": bool(race), "ran": []}
     try:
         # demonstration on the unchanged tree
         shutil.copy(os.path.join(src, "demo_test.go"), dpath)
-        rc, _ = run("go test -vet=off -count=1 ./%s" % ddir, "/repo")
+        rc, _ = run("go test %s-vet=off -count=1 ./%s" % (race, ddir), "/repo")
         os.remove(dpath)
         out["demo_passes_without_change"] = rc == 0
         rc, o = run("git apply %s" % os.path.join(src, "patch.diff"), "/repo")
@@ -40,7 +44,7 @@ def main():
         out["builds_with_change"] = rc1 == 0
         out["baseline_suite_passes_with_change"] = rc2 == 0
         shutil.copy(os.path.join(src, "demo_test.go"), dpath)
-        rc3, _ = run("go test -vet=off -count=1 ./%s" % ddir, "/repo")
+        rc3, _ = run("go test %s-vet=off -count=1 ./%s" % (race, ddir), "/repo")
         os.remove(dpath)
         out["demo_fails_with_change"] = rc3 != 0
         caught = []
